@@ -35,4 +35,30 @@ theorem ids_route (s : Sys) (id : OpId) (c : Cmd) (p : Proxy) : ids (route s id 
   unfold route
   cases p <;> simp only <;> (repeat' split) <;> simp [ids_setPc]
 
+theorem eq_of_id_eq_aux : ∀ (l : List Op), (l.map (·.id)).Nodup → ∀ a ∈ l, ∀ b ∈ l, a.id = b.id → a = b
+  | [], _, a, ha, _, _, _ => by simp at ha
+  | x :: l, h, a, ha, b, hb, e => by
+    simp only [List.map_cons, List.nodup_cons, List.mem_map, not_exists, not_and] at h
+    simp only [List.mem_cons] at ha hb
+    rcases ha with rfl | ha <;> rcases hb with rfl | hb
+    · rfl
+    · exact absurd e.symm (h.1 b hb)
+    · exact absurd e (h.1 a ha)
+    · exact eq_of_id_eq_aux l h.2 a ha b hb e
+
+/-- identifiers determine ops -/
+theorem eq_of_id_eq {s : Sys} (h : WF s) {a b : Op} (ha : a ∈ s.ops) (hb : b ∈ s.ops) (e : a.id = b.id) : a = b :=
+  eq_of_id_eq_aux s.ops h a ha b hb e
+
+theorem wf_setPc {s : Sys} (h : WF s) (id : OpId) (pc : Pc) : WF (setPc s id pc) := by
+  unfold WF; rw [ids_setPc]; exact h
+
+theorem wf_route {s : Sys} (h : WF s) (id : OpId) (c : Cmd) (p : Proxy) : WF (route s id c p) := by
+  unfold WF; rw [ids_route]; exact h
+
+theorem wf_removeOp {s : Sys} (h : WF s) (id : OpId) : WF (removeOp s id) := by
+  unfold WF ids removeOp at *
+  simp only
+  exact (List.filter_sublist.map _).nodup h
+
 end Um.Mig
